@@ -3,7 +3,7 @@
 removed afterwards) with every registered rule and report which rule+key obligations the commit repaired.
 Prints JSON lines to be merged into known_findings.json as status=fixed entries."""
 import json,subprocess,tempfile,shutil,os,sys
-ENV=dict(os.environ,GOFLAGS='-mod=mod',GOPROXY='off',GOSUMDB='off',GOTOOLCHAIN='local',GOWORK='off')
+ENV=dict(os.environ,GOFLAGS='-mod=mod -trimpath',GOPROXY='off',GOSUMDB='off',GOTOOLCHAIN='local',GOWORK='off')
 def export(rev,dst):
     os.makedirs(dst)
     p=subprocess.Popen(['git','-C','/repo','archive',rev],stdout=subprocess.PIPE)
